@@ -96,6 +96,7 @@ TriV(a) ==
     ELSE LET v == FirstFail(<<
             <<"spec-reads-impl-text", a.spec.ok /\ a.spec.ts = T.ts>>,
             <<"impl-reads-own-text", T.back.ok /\ T.back.ts = T.ts>>,
+            <<"reads-own-text-again-after-the-caller-changed-the-first-result", T.back2.ok /\ T.back2.ts = T.ts>>,
             <<"spacing-variants-agree", \A i \in DOMAIN T.variants : T.variants[i].ok /\ T.variants[i].ts = T.ts>> >>, 1)
          IN IF v # Acc THEN v ELSE IF T.text # a.fmt THEN Drift("text differs from FmtTriples") ELSE Acc
 \* kind = "ptriples": arbitrary text through parse_triples (C07 clause on triple conjunctions)
